@@ -320,6 +320,8 @@ int main(int argc, char **argv)
         std::vector<std::string> worlds = {"wallgap4", "maze6", "goalobst4"};
         if (a.thorough())
             worlds.push_back("utrap4");
+        else if (vpl::find(planner)->flags & vpl::VARIANT)
+            worlds = {"wallgap4", "goalobst4"};  // option variants: reduced world set in the quick tier
         for (auto &w : worlds)
         {
             Cfg cfg;
@@ -473,7 +475,21 @@ int main(int argc, char **argv)
                         sr.evaluations++;
                     },
                     scratch, 50);
-                if (!single.clean)
+                // a hang in a history with a bare setProblemDefinition (no clear()/clearQuery() before it) is the stale-query defect: the
+                // planner searches a mixture of two queries' trees (e.g. BFMT traces a parent cycle) — same folding as for the
+                // never-stops-evaluating clause above; crashes are not folded
+                bool bareSwitch = false;
+                {
+                    vf::JParser jp(curj);
+                    vf::JV v = jp.parse();
+                    auto &h = v["hist"].a;
+                    for (size_t i = 1; i < h.size(); ++i)
+                        if ((h[i].s == "P1" || h[i].s == "P2") && h[i - 1].s != "C" && h[i - 1].s != "Q")
+                            bareSwitch = true;
+                }
+                if (!single.clean && bareSwitch && (single.timeout || single.sig == SIGALRM))
+                    rep.fail("C03|stale-query-after-setProblemDefinition|" + planner + "|hang", "after a bare setProblemDefinition a call of the history did not return within 40 s (" + w + ")", curj);
+                else if (!single.clean)
                     rep.fail(crashKey(planner, single), std::string(single.timeout || single.sig == SIGALRM ? "a call of the history did not return within 40 s (10x the in-group limit)" : "the call history or teardown crashed") + " (" + w + ")", curj);
                 else
                 {
